@@ -648,7 +648,29 @@ pub fn check_marker<EF: Field>(circuit: &Circuit<EF>, pubs: &[EF], privs: &[EF],
         out.into_iter().map(|(k, n)| json!([k, n])).collect()
     };
     let (pub_kinds, priv_kinds) = (rle(pubs, Loc::Pub), rle(privs, Loc::Priv));
-    let info = json!({"leaves_checked": checked, "weak_checked": weak_checked, "targets_sharing_a_witness": aliased,
+    // C18: digest of the verification circuit itself (op list with witness numbering, input rows)
+    let ops_digest = {
+        let mut h: u64 = 0xcbf29ce484222325;
+        let mut eat = |t: &str| {
+            for b in t.bytes() {
+                h ^= b as u64;
+                h = h.wrapping_mul(0x100000001b3);
+            }
+        };
+        for op in &circuit.ops {
+            match op {
+                p3_circuit::Op::Const { out, val } => eat(&format!("C {} {val:?};", out.0)),
+                p3_circuit::Op::Public { out, public_pos } => eat(&format!("P {} {public_pos};", out.0)),
+                p3_circuit::Op::Alu { kind, a, b, c, out, intermediate_out } => eat(&format!("A {kind:?} {} {} {:?} {} {:?};", a.0, b.0, c.map(|x| x.0), out.0, intermediate_out.map(|x| x.0))),
+                p3_circuit::Op::Hint { inputs, outputs, .. } => eat(&format!("H {:?} {:?};", inputs.iter().map(|x| x.0).collect::<Vec<_>>(), outputs.iter().map(|x| x.0).collect::<Vec<_>>())),
+                p3_circuit::Op::NonPrimitiveOpWithExecutor { inputs, outputs, executor, op_id } => eat(&format!("N {} {:?} {:?} {:?};", executor.op_type().as_str(), op_id,
+                    inputs.iter().map(|v| v.iter().map(|x| x.0).collect::<Vec<_>>()).collect::<Vec<_>>(), outputs.iter().map(|v| v.iter().map(|x| x.0).collect::<Vec<_>>()).collect::<Vec<_>>())),
+            }
+        }
+        eat(&format!("{:?}|{:?}", circuit.public_rows.iter().map(|w| w.0).collect::<Vec<_>>(), circuit.private_input_rows.iter().map(|w| w.0).collect::<Vec<_>>()));
+        h
+    };
+    let info = json!({"ops_digest": format!("{ops_digest:016x}"), "ops": circuit.ops.len(), "leaves_checked": checked, "weak_checked": weak_checked, "targets_sharing_a_witness": aliased,
         "public_kinds": pub_kinds, "private_kinds": priv_kinds,
         "public_len": pubs.len(), "private_len": privs.len(),
         "public_positions_not_reached_by_a_walked_target": used_pub.iter().filter(|u| !**u).count(),
@@ -1739,6 +1761,26 @@ fn make_driver(config: &str) -> Option<Box<dyn Driver>> {
         "batch_circuit_tables_kb" | "batch_circuit_tables_bb" => batch_circuit_tables_kb::new(),
         _ => return None,
     })
+}
+
+/// `p3r digest-stark`: C18 for the recursion verifier circuits - one line per configuration with the digest of the verification
+/// circuit built for the honest statement (twice in this process); the check compares the lines of several processes.
+pub fn cmd_digest(_args: &[String]) -> i32 {
+    for config in ["uni_fib_bb", "uni_mul_kb_prep", "batch_two_airs_bb", "batch_two_airs_rev_bb", "batch_two_airs_bb_cap2", "batch_lookups_bb", "batch_fib_kb_zk", "batch_circuit_tables_kb"] {
+        let one = || -> Result<String, String> {
+            let d = make_driver(config).ok_or("unknown configuration")?;
+            let o = d.run(&Case { spec: String::new(), config: config.into(), mode: "marker".into(), fault: Value::Null, alter: Value::Null });
+            let dg = o.info.get("ops_digest").and_then(|v| v.as_str()).ok_or_else(|| format!("no circuit: {}", o.circuit.msg))?.to_string();
+            Ok(format!("{dg} ops={}", o.info.get("ops").and_then(|v| v.as_u64()).unwrap_or(0)))
+        };
+        let a = catch_unwind(AssertUnwindSafe(one)).unwrap_or_else(|_| Err("panic".into()));
+        let b = catch_unwind(AssertUnwindSafe(one)).unwrap_or_else(|_| Err("panic".into()));
+        match (a, b) {
+            (Ok(a), Ok(b)) => println!("npo stark-verifier-{config} {a} same_process_rebuild={}", a == b),
+            (a, b) => println!("npo stark-verifier-{config} ERROR {:?} {:?}", a.err(), b.err()),
+        }
+    }
+    0
 }
 
 fn arg(args: &[String], name: &str) -> Option<String> {
